@@ -213,6 +213,11 @@ mod membership;
 mod network;
 mod utils;
 
+/// Verification hook (only with `--cfg d_engine_verif`): lets an external harness construct and drive the
+/// real `RaftMembership`. Adds no behaviour.
+#[cfg(d_engine_verif)]
+pub use membership::RaftMembership;
+
 // ==================== Test Utilities ====================
 
 /// Standardized test suite for custom [`StateMachine`] implementations.
